@@ -7,6 +7,7 @@ prop, unit, job = sys.argv[1:4]
 u = runner.load_unit(unit)
 j = [x for x in u['jobs'] if x['name'] == job][0]
 flags = list(j.get('flags', u.get('flags', runner.DEFAULT_FLAGS))) + j.get('extra_flags', [])
+if j.get('unwind') and not isinstance(j['unwind'], (str, dict)): flags += ['--unwind', str(j['unwind'])]
 for us in j.get('unwindset', []): flags += ['--unwindset', us]
 if j.get('object_bits'): flags += ['--object-bits', str(j['object_bits'])]
 solver = j.get('solver', u.get('solver', ['--sat-solver', 'cadical']))
